@@ -421,7 +421,9 @@ def deliverInbound (w : World) (k m qos : Nat) : World :=
 def connectFailed (w : World) (k : Nat) : World :=
   -- RetryClient.Connect: `chConnectErr <- err; close(chConnectErr)`; the loop closes the client and backs off
   let w := kill { w with connReady := true } k
-  { w with phase := .dialGate, waits := w.waits ++ [w.waitExp], waitExp := w.waitExp + 1, dials := w.dials + 1 }
+  -- reconnclient.go:152-158: the select after a failure observes `disconnected` and returns
+  if w.stopped then { w with phase := .exited }
+  else { w with phase := .dialGate, waits := w.waits ++ [w.waitExp], waitExp := w.waitExp + 1, dials := w.dials + 1 }
 
 def step (w : World) : Ev → World
   | .start =>
@@ -442,6 +444,7 @@ def step (w : World) : Ev → World
                phase := .connackGate k }
   | .dialFail =>
     if w.phase ≠ .dialGate then w
+    else if w.stopped then { w with phase := .exited }
     else { w with waits := w.waits ++ [w.waitExp], waitExp := w.waitExp + 1, dials := w.dials + 1 }
   | .connackOk sp inbound =>
     match w.phase with
@@ -453,9 +456,11 @@ def step (w : World) : Ev → World
       let w := inbound.foldl (fun w (mq : Nat × Nat) => deliverInbound w k mq.1 mq.2) w
       let w := { w with connReady := true, waitExp := 0,
                         connectReturned := if w.connectReturned.isNone then some sp else w.connectReturned }
-      let w := if w.initialized ∧ (¬ sp ∨ w.cfg.always) then pushTask w .resubscribe else w
-      let w := pushTask w .retry
-      progress { w with initialized := true, phase := .up k }
+      -- pushTask refuses once Disconnect was called (ErrClosedClient, ignored by Resubscribe / Retry)
+      let w := if w.initialized ∧ (¬ sp ∨ w.cfg.always) ∧ ¬ w.stopped then pushTask w .resubscribe else w
+      let w := if w.stopped then w else pushTask w .retry
+      -- … and the loop's select on (Done, disconnected) returns at once, leaving the connection as it is
+      progress { w with initialized := true, phase := if w.stopped then .exited else .up k }
     | _ => w
   | .connackRefused =>
     match w.phase with
